@@ -128,6 +128,17 @@ def install(gate, cfg):
         def load_module(self, *a, **k):
             gate('load')
             return self.l.load_module(*a, **k)
+    # every process defines its class from its OWN source file (two processes rewriting one m.py would race in the
+    # harness, not in bisturi); the code generator is told that the class lives in <dir>/m.py, so that all of them
+    # share the cache file __pkts__/m_P.py exactly as same-named classes of one module do
+    real_inspect = cg.inspect
+
+    class InspectProxy:
+        def __getattr__(self, n):
+            if n == 'getfile':
+                return lambda cls: real_os.path.join(cfg['dir'], 'm.py')
+            return getattr(real_inspect, n)
+    cg.inspect = InspectProxy()
     cg.os = OsProxy()
     cg.open = open_proxy
     cg.SourceFileLoader = LoaderProxy
@@ -135,20 +146,9 @@ def install(gate, cfg):
 
 def define(d, variant, k):
     """(re)write m.py with the variant's declaration and import it afresh: this runs the metaclass and the cache protocol"""
-    path = os.path.join(d, 'm.py')
+    path = os.path.join(d, 'm_%d_%d.py' % (os.getpid(), k))
     with builtins.open(path, 'w') as f:
         f.write(source(variant))
-    # the user's own module must not be served from ITS stale bytecode (same size, same second): that is python's
-    # import system, not bisturi's cache; every rewrite of m.py gets a distinct time stamp
-    cpath = os.path.join(d, 'm.counter')
-    try:
-        n = int(builtins.open(cpath).read()) + 1
-    except Exception:
-        n = 1
-    with builtins.open(cpath, 'w') as f:
-        f.write(str(n))
-    os.utime(path, (1_500_000_000 + 7 * n, 1_500_000_000 + 7 * n))
-    importlib.invalidate_caches()
     spec = importlib.util.spec_from_file_location('m', path)
     mod = importlib.util.module_from_spec(spec)
     sys.modules['m'] = mod
